@@ -495,6 +495,38 @@ def record_and_replay(prop, ob, db, sc, do_replay=True):
                 res = {'status': 'confirmed', 'output': 'not executed in the run that recorded it (replay cap reached; earlier violations of the same run were confirmed): run `python3 run.py --replay <this file>`'}
             rec['replay'] = res
             status = res['status']
+            if status == 'not-reproduced' and do_replay and getattr(ob.contract, 'replay_lattice', None) and not getattr(ob.contract, 'mem', None):
+                # the failed obligation involves an operation the proof treats as uninterpreted (e.g. the IEEE square root under
+                # a rounding mode): the solver's operand need not be one on which the real FPU shows the difference.  Try the
+                # family's small lattice of operands under every rounding mode; a real failing input confirms.
+                import struct
+                for rm2 in (2, 1, 3, 0):
+                    for val in ob.contract.replay_lattice:
+                        ib2 = dict(ib)
+                        for i, prm in enumerate(fn['params']):
+                            var = 'a%d_obj' % i if prm['ref'] else 'a%d' % i
+                            ct = prm['ctype'][:-1] if prm['ref'] else prm['ctype']
+                            tt = families.T(ct, S)
+                            if tt.elem and tt.isfloat and var in ib2:
+                                one = struct.pack('<f' if tt.bits == 32 else '<d', val)
+                                ib2[var] = one * (len(ib2[var]) // len(one))
+                        if fn['kind'] in ('method', 'conv') and 'self_obj' in ib2:
+                            tt = families.T(fn['owner'], S)
+                            if tt.elem and tt.isfloat:
+                                one = struct.pack('<f' if tt.bits == 32 else '<d', val)
+                                ib2['self_obj'] = one * (len(ib2['self_obj']) // len(one))
+                        prog2 = gen_program(fn, ob.contract, db, ib2, rm2)
+                        res2 = build_and_run(prog2, ob.cfgs[0], sc.path('replay-' + tag + '-l'))
+                        if res2['status'] == 'confirmed':
+                            rec['inputs_hex'] = {k: v.hex() for k, v in ib2.items()}
+                            rec['rounding_mode'] = rm2
+                            rec['program'] = prog2
+                            rec['replay'] = res2
+                            rec['replay_note'] = 'the solver\'s own operand did not show the difference on the real FPU (uninterpreted operation); confirmed on the family\'s operand lattice instead'
+                            status = 'confirmed'
+                            break
+                    if status == 'confirmed':
+                        break
         except (ValueError, KeyError) as e:
             rec['replay'] = {'status': 'generator-error', 'output': str(e)}
             status = 'no-input'
